@@ -256,9 +256,9 @@ def funnel(ctx):
                 if F.counts[(pr, kind)] == 0:
                     raise vlib.CheckFailure("C18 funnel: probe %s (site %s) made no %s evaluation" % (pr, key, kind))
     shown = collections.Counter()
-    for e in evals:
-        if e.ok:
-            continue
+    # failed evaluations in a fixed order (probes finish in scheduling order): which three of a probe are reported,
+    # and therefore which known-finding keys are printed, must not depend on thread timing
+    for e in sorted((e for e in evals if not e.ok), key=lambda e: (e.probe, e.kind, repr(e.inp))):
         shown[e.probe] += 1
         if shown[e.probe] > 3:
             continue
